@@ -235,6 +235,8 @@ fn multi_append<IntT>(
 where
     IntT: for<'a> UInt<'a>,
 {
+    #[cfg(feature = "verif-hooks")]
+    crate::verif_trace::leaf(offset, input_files.len(), total_size);
     let mut merged_dict = MergeSkaDict::new(k, total_size, rc);
     for (idx, (name, filename, second_file)) in input_files.iter().enumerate() {
         let ska_dict = SkaDict::new(
@@ -365,6 +367,10 @@ where
         log::info!("All input files FASTA (no error filtering)");
     }
 
+    #[cfg(feature = "verif-hooks")]
+    if threads > 1 {
+        crate::verif_trace::pool_init("build_and_merge", threads);
+    }
     if threads > 1 {
         rayon::ThreadPoolBuilder::new()
             .num_threads(threads)
@@ -377,6 +383,16 @@ where
     let mut merged_dict = MergeSkaDict::new(k, total_size, rc);
     let max_threads = usize::max(1, usize::min(threads, 1 + total_size / 10));
     let max_depth = f64::floor(f64::log2(max_threads as f64)) as usize;
+    #[cfg(feature = "verif-hooks")]
+    {
+        if threads > 1 {
+            crate::verif_trace::pool_done("build_and_merge");
+        }
+        crate::verif_trace::split(total_size, threads, max_depth);
+        if max_depth == 0 {
+            crate::verif_trace::leaf(0, total_size, total_size);
+        }
+    }
     if max_depth > 0 {
         log::info!(
             "{}",
